@@ -91,3 +91,17 @@ Example raises_examples :
   raises (ODict [("a", OFloat nan)]) = true /\ raises (ODict [("_a", OFloat nan); ("id", OExc)]) = false /\
   raises (OInst "Broken" (info_fields ["present"; "absent"] false) [("present", OFloat 1)]) = true.
 Proof. repeat split. Qed.
+
+(* the theorems compose: the upper limit of a prior nested in a model inside a collection changes by 2e-8,
+   hence the joined description of the whole fit changes *)
+Definition ctx1 : node -> node :=
+  fun x => NColl 5 0 ([("lens", A2 3 (u01 1) (NFloat 2))] ++
+                      ("source", (fun y => NModel 4 "" "c07_classes.A2" ["a"; "b"] ([("a", g12 2)] ++ ("b", (fun z => z) y) :: [])) x) :: []).
+Example sensitivity_composed :
+  joined ps0 (fit_obj emcee (ctx1 (NPrior 1 FUniform 0 1 0 0)) (Some "tag")) <>
+  joined ps0 (fit_obj emcee (ctx1 (NPrior 9 FUniform 0 0x1.00000055e63b9p+0 0 0)) (Some "tag")).
+Proof.
+  apply (sensitive_model ps0 "Emcee" ["nwalkers"] [("nwalkers", NInt 30)] (Some "tag") ctx1).
+  - exact nframe_inhabited.
+  - apply leaf_prior_upper. exact float_tokens_differ.
+Qed.
